@@ -18,8 +18,8 @@ SYNTAX = (("g++", ()), ("g++", ("-DQT_NO_DEBUG",)), ("clang++-14", ("-DQT_NO_DEB
 
 def tier_params(tier):
     if tier == "thorough":
-        return {"cases": 1800, "histories": 4, "events": 50, "wall_budget_s": 3300}
-    return {"cases": 80, "histories": 2, "events": 30, "wall_budget_s": 900}
+        return {"cases": 6000, "histories": 4, "events": 50, "wall_budget_s": 3300}
+    return {"cases": 160, "histories": 2, "events": 30, "wall_budget_s": 900}
 
 
 def prepare(repo):
